@@ -83,7 +83,7 @@ CHECKS = {
     "C06": dict(
         level="model_checking",
         clauses=GEN_CLAUSES_SPEC | {"errclass"},
-        phases=dict(quick=[dict(kind="flatjoin", pre=2), dict(profile="join2"), dict(profile="joins3"), dict(profile="joinh4")],
+        phases=dict(quick=[dict(kind="joinnames"), dict(kind="flatjoin", pre=2), dict(profile="join2"), dict(profile="joins3"), dict(profile="joinh4")],
                     thorough=[dict(kind="flatjoin", pre=3, pairs=[(1, 2), (6, 2), (7, 2)]), dict(profile="join2"), dict(profile="join3"), dict(profile="joins4"), dict(profile="joinh4")]),
     ),
     "C07": dict(
